@@ -70,6 +70,10 @@ Judge(e) ==
          (LET bad == {i \in DOMAIN e.ress : ~(e.ress[i].kind = "rows" /\ ResultOK(e.q, db, e.ress[i].rows))} IN
           IF bad = {} THEN TRUE
           ELSE PrintT("MM " \o ToJson([l |-> l, id |-> e.id, what |-> "variant", bad |-> bad, exp |-> Rows(e.q, <<>>, db)])))
+    [] e.ev = "quiesce" ->    \* C36: at quiescence no query is running and every session is listed and idle
+         (IF e.threads_running = 0 /\ e.busy = 0 /\ e.connections = e.expected_connections THEN TRUE
+          ELSE PrintT("MM " \o ToJson([l |-> l, id |-> e.id, what |-> "registries", running |-> e.threads_running,
+                                        busy |-> e.busy, connections |-> e.connections])))
     [] OTHER -> TRUE
 
 Next ==
